@@ -745,8 +745,8 @@ def CacheSound (env : KeyEnv) (exec : NodeD → AL Val → NodeOut) (cache : Lru
     ∃ outs dec, outcome (exec nd inputs) = some (outs, dec) ∧ entry = toCache nd outs dec
 
 /-- the executor's result is a function of what the key is computed from: nodes with the same
-definition hash, class, output names and targets behave alike when the underlying function receives
-the same arguments, i.e. on the same *parameter-level* inputs `toParams nd i` (whatever the order of
+definition hash, class, output names, targets and fallback behave alike when the underlying function
+receives the same arguments, i.e. on the same *parameter-level* inputs `toParams nd i` (whatever the order of
 the inputs dict, and whatever current names the arguments travel under). This is the contract of
 `definition_hash`: it identifies the function, and the function only ever sees its own parameter
 names. (Stated over the inputs under their *current* names the contract would be false of any function
@@ -924,8 +924,9 @@ def gateEx : NodeD := { (default : NodeD) with name := "g", kind := .route, targ
 /-- a key environment that is injective at the key of `(gateEx, [])` -/
 def envEx : KeyEnv :=
   { defHash := fun _ => "h"
-    hash := fun K => if K = (({ defHash := "h", cls := "RouteNode", outputs := [], targets := [.node "a"] } : Ident),
-      ([] : AL Val)) then "0" else "1" }
+    hash := fun K =>
+      if K = (({ defHash := "h", cls := "RouteNode", outputs := [], targets := [.node "a"],
+                 fallback := none } : Ident), ([] : AL Val)) then "0" else "1" }
 
 /-- gates decide `d` and output nothing; other nodes output nothing -/
 def execEx (d : Dec) : NodeD → AL Val → NodeOut := fun nd _ =>
@@ -970,7 +971,8 @@ def gEx : NodeD := { fEx with name := "f_swapped", origIn := [("x", "y"), ("y", 
 def insEx : AL Val := [("x", .int 5), ("y", .int 2)]
 
 /-- the identity shared by `fEx` and `gEx` when both report the definition hash `"h"` -/
-def identSw : Ident := { defHash := "h", cls := "FunctionNode", outputs := ["r"], targets := [] }
+def identSw : Ident :=
+  { defHash := "h", cls := "FunctionNode", outputs := ["r"], targets := [], fallback := none }
 
 /-- a key environment in which every node reports the definition hash `"h"` (as `fEx` and `gEx` do in
 the library: renaming does not change `definition_hash`), injective at the two keys `f(x=5, y=2)` and
